@@ -16,15 +16,17 @@ var byteAlphabet = []byte("a1x0\"'\\/*+-=(){}[];,.:?!<>&|^~% \n\r\t\x80\xc3\xa9\
 // runBytes: all byte strings of length <= 2, and of length 3 over the alphabet.
 func runBytes(r *engine.Run) {
 	h := newHarness(r, 64)
-	h.one("len0", "")
+	if mine(r, "len0") {
+		h.one("len0", "")
+	}
 	for a := 0; a < 256; a++ {
-		if k := fmt.Sprintf("1/%02x", a); r.MineKey(k) {
+		if k := fmt.Sprintf("1/%02x", a); mine(r, k) {
 			h.one(k, string([]byte{byte(a)}))
 		}
 	}
 	for a := 0; a < 256; a++ {
 		for b := 0; b < 256; b++ {
-			if k := fmt.Sprintf("2/%02x%02x", a, b); r.MineKey(k) {
+			if k := fmt.Sprintf("2/%02x%02x", a, b); mine(r, k) {
 				h.one(k, string([]byte{byte(a), byte(b)}))
 			}
 		}
@@ -32,7 +34,7 @@ func runBytes(r *engine.Run) {
 	for _, a := range byteAlphabet {
 		for _, b := range byteAlphabet {
 			for _, c := range byteAlphabet {
-				if k := fmt.Sprintf("3/%02x%02x%02x", a, b, c); r.MineKey(k) {
+				if k := fmt.Sprintf("3/%02x%02x%02x", a, b, c); mine(r, k) {
 					h.one(k, string([]byte{a, b, c}))
 				}
 			}
@@ -44,7 +46,7 @@ func runBytes(r *engine.Run) {
 			for _, b := range small {
 				for _, c := range small {
 					for _, d := range byteAlphabet {
-						if k := fmt.Sprintf("4/%02x%02x%02x%02x", a, b, c, d); r.MineKey(k) {
+						if k := fmt.Sprintf("4/%02x%02x%02x%02x", a, b, c, d); mine(r, k) {
 							h.one(k, string([]byte{a, b, c, d}))
 						}
 					}
@@ -73,11 +75,11 @@ func runUTF8(r *engine.Run) {
 	for ci, c := range carriers {
 		for p := 0; p <= len(c); p++ {
 			for mi, m := range malformed {
-				if k := fmt.Sprintf("ins/%d/%d/%d", ci, p, mi); r.MineKey(k) {
+				if k := fmt.Sprintf("ins/%d/%d/%d", ci, p, mi); mine(r, k) {
 					h.one(k, c[:p]+m+c[p:])
 				}
 				if p < len(c) {
-					if k := fmt.Sprintf("sub/%d/%d/%d", ci, p, mi); r.MineKey(k) {
+					if k := fmt.Sprintf("sub/%d/%d/%d", ci, p, mi); mine(r, k) {
 						h.one(k, c[:p]+m+c[p+1:])
 					}
 				}
@@ -101,7 +103,7 @@ type alphabet struct {
 // identifiers, good and bad regular expression literals, Go's &^ tokens, the
 // object literal forms and the restricted productions; "\n" is a token.
 var alphabets = []alphabet{
-	{"core", strings.Fields(`x 1 "s" ( ) { } ; , = + ++ / function var if`), 4, 6},
+	{"core", strings.Fields(`x 1 "s" ( ) { } ; , = + ++ / function var if`), 5, 6},
 	{"loops", strings.Fields(`for in while do break continue x ( ) ; { } var = L :`), 4, 5},
 	{"jumps", strings.Fields(`return switch case default try catch finally throw x ( ) { } : ; function`), 4, 5},
 	{"members", append(strings.Fields(`with new ? : . [ ] ( ) , x 1 ++ - typeof`), "\n"), 4, 5},
@@ -135,7 +137,7 @@ func runTokens(r *engine.Run) {
 				for _, i := range idx {
 					kb.WriteByte("0123456789abcdef"[i])
 				}
-				if key := kb.String(); r.MineKey(key) {
+				if key := kb.String(); mine(r, key) {
 					parts := make([]string, len(idx))
 					for j, i := range idx {
 						parts[j] = a.tokens[i]
@@ -237,12 +239,12 @@ func runMutations(r *engine.Run) {
 	for ci, toks := range cp {
 		src := strings.Join(toks, " ")
 		for p := 0; p <= len(src); p++ {
-			if k := fmt.Sprintf("%d/prefix/%d", ci, p); r.MineKey(k) {
+			if k := fmt.Sprintf("%d/prefix/%d", ci, p); mine(r, k) {
 				h.one(k, src[:p])
 			}
 		}
 		for _, e := range edits(len(toks)) {
-			if k := fmt.Sprintf("%d/%s", ci, e.key()); r.MineKey(k) {
+			if k := fmt.Sprintf("%d/%s", ci, e.key()); mine(r, k) {
 				h.one(k, strings.Join(apply(toks, e), " "))
 			}
 		}
@@ -284,7 +286,7 @@ func runMutations2(r *engine.Run) {
 				if !keep(e2) {
 					continue
 				}
-				if k := fmt.Sprintf("%d/%s/%s", ci, e1.key(), e2.key()); r.MineKey(k) {
+				if k := fmt.Sprintf("%d/%s/%s", ci, e1.key(), e2.key()); mine(r, k) {
 					h.one(k, strings.Join(apply(t1, e2), " "))
 				}
 			}
@@ -298,10 +300,10 @@ func runMutations2(r *engine.Run) {
 func runValid(r *engine.Run) {
 	h := newHarness(r, 64)
 	c03.ValidTexts(func(key, src string) {
-		if r.MineKey(key) {
+		if mine(r, key) {
 			h.one(key, src)
 		}
-		if k2 := key + "/compact"; r.MineKey(k2) {
+		if k2 := key + "/compact"; mine(r, k2) {
 			h.one(k2, strings.ReplaceAll(strings.ReplaceAll(src, " ( ", "("), " ) ", ")"))
 		}
 	})
@@ -313,7 +315,7 @@ func runValid(r *engine.Run) {
 		"var a = 1 , b", "a ? b : c", "a , b , c", "[ , a , , ]", "a [ b ] ( c ) . d", "this", "null", "true", "debugger",
 	}
 	for i, s := range extras {
-		if k := fmt.Sprintf("extra/%d", i); r.MineKey(k) {
+		if k := fmt.Sprintf("extra/%d", i); mine(r, k) {
 			h.one(k, s)
 		}
 	}
@@ -325,14 +327,14 @@ func runValid(r *engine.Run) {
 func runPairs(r *engine.Run) {
 	h := newHarness(r, 64)
 	c03.ASITexts(r.Thorough(), func(key, src string) {
-		if r.MineKey(key) {
+		if mine(r, key) {
 			h.one(key, src)
 		}
 	})
 	// restricted production that is an error
 	for _, lt := range []string{"\n", "\r", "\r\n", "\u2028", "\u2029", "/*\n*/", "//c\n"} {
 		for i, s := range []string{"throw%sa ;", "function f ( ) { throw%sa }", "try { throw%s} catch ( e ) { }", "if ( a )%selse b", "for ( a%s b%s c ) ;", "do a%swhile ( b ) c"} {
-			if k := fmt.Sprintf("err/%d/%q", i, lt); r.MineKey(k) {
+			if k := fmt.Sprintf("err/%d/%q", i, lt); mine(r, k) {
 				h.one(k, strings.ReplaceAll(s, "%s", lt))
 			}
 		}
@@ -351,7 +353,7 @@ func runLiterals(r *engine.Run) {
 	var rec func(prefix string)
 	rec = func(prefix string) {
 		if prefix != "" {
-			if k := "num/" + prefix; r.MineKey(k) {
+			if k := "num/" + prefix; mine(r, k) {
 				h.one(k, "x = "+prefix+" ;")
 			}
 		}
@@ -371,7 +373,7 @@ func runLiterals(r *engine.Run) {
 	}
 	var srec func(prefix string)
 	srec = func(prefix string) {
-		if k := "str/" + fmt.Sprintf("%x", prefix); r.MineKey(k) {
+		if k := "str/" + fmt.Sprintf("%x", prefix); mine(r, k) {
 			h.one(k, "x = \""+prefix+"\" ;")
 		}
 		if len(prefix) == smax {
@@ -383,7 +385,7 @@ func runLiterals(r *engine.Run) {
 	}
 	srec("")
 	for i, s := range []string{"\"a\u2028b\"", "'a\u2029b'", "\"\\u{41}\"", "\"\\", "\"", "'", "\"a", "'\\'", "\"\\u004\"", "\"\\xg0\"", "x = \"\\\u2028\"", "/", "/a", "/[/", "/a/\\u0067", "a\\u0020b", "\\u00", "a\\", "@", "#", "`", "a = 1 @", "\u0085", "a \u0085 b", "a\u180eb", "a\u200bb", "a\u2003b", "\u3000a"} {
-		if k := fmt.Sprintf("misc/%d", i); r.MineKey(k) {
+		if k := fmt.Sprintf("misc/%d", i); mine(r, k) {
 			h.one(k, s)
 		}
 	}
@@ -400,7 +402,7 @@ func runEarlyErrors(r *engine.Run) {
 	n := 0
 	try := func(key, src string) {
 		n++
-		if r.MineKey(key) {
+		if mine(r, key) {
 			h.one(key, src)
 		}
 	}
@@ -463,7 +465,8 @@ func runEarlyErrors(r *engine.Run) {
 		"x = { get a ( ) { } , get a ( ) { } }", "x = { a : 1 , get a ( ) { } }", "x = { get a ( ) { } , a : 1 }", "x = { set a ( v ) { } , set a ( w ) { } }", "x = { a : 1 , a : 2 }", "x = { get a ( ) { } , set a ( v ) { } }", "x = { get a ( b ) { } }",
 		"x = { set a ( ) { } }", "x = { set a ( b , c ) { } }", "x = { get : 1 , set : 2 }", "x = { get get ( ) { } }", "x = { get ( ) { } }", "x = { get a : 1 }", "x = { \"a\" 1 }", "x = { 1 }", "x = { a : 1 b : 2 }", "f ( a , )", "new f ( a , )",
 		"( function ( a , ) { } )", "function f ( a , ) { }", "( a ) : x ( )", "do ; while ( 0 ) x ( )", "if ( a ) function g ( ) { }", "{ function g ( ) { } }", "L : function g ( ) { }", "while ( a ) function g ( ) { }",
-		"L : { for ( ; ; ) { continue L ; } }", "L : if ( a ) while ( b ) continue L ;", "a &^= b", "a &^ b", "a = b &^ c", "for ( a < b in c ; ; ) ;", "x = /[/", "x = /[/ ; x ( )", "switch ( a ) {", "switch ( a ) { case 1 : x ( )"} {
+		"L : { for ( ; ; ) { continue L ; } }", "L : if ( a ) while ( b ) continue L ;", "a &^= b", "a &^ b", "a = b &^ c", "for ( a < b in c ; ; ) ;", "x = /[/", "x = /[/ ; x ( )", "switch ( a ) {", "switch ( a ) { case 1 : x ( )",
+		"x = /a/in b ;", "x = /a/instanceof b ;", "x = /a/g in b ;", "x = /a/ in b ;", "x = /a/\nin b ;", "a \u0085 + b", "x = /a/ g ;", "( /a/\ng )", "\r!\n", "a =\r1\n+ 2", "a . new\n++ b", "x . with\n++"} {
 		try(fmt.Sprintf("misc/%d", i), s)
 	}
 	// reserved words where an Identifier is required
